@@ -58,8 +58,13 @@ def registration_keys_agree(prog, chk):
                 continue
             for (bb, t, c) in b.call_sites(lambda c: "HashMap" in c.inst and c.path.split("::")[-1] in method_names):
                 o = R.origin(b, t["args"][0], carriers={}) if t["args"] else ("?",)
-                if not (o[0] == "field" and str(o[1][1][-1]) == ".elem_map") or len(t["args"]) < 2:
+                if len(t["args"]) < 2:
                     continue
+                if not (o[0] == "field" and str(o[1][1][-1]) == ".elem_map"):
+                    # not a field of that name: the *current* id map is then the one both inserted into and removed from
+                    # (the snapshot map is only inserted into); decided below by pairing
+                    if not ("SvgElement" in c.inst and "String" in c.inst):
+                        continue
                 k = R.origin(b, t["args"][1], carriers=dict(R.CARRIERS, unwrap_or=0, unwrap_or_else=0, unwrap_or_default=0, clone=0, as_str=0, deref=0))
                 evaluated = k[0] == "call" and "fn" in k[2] and Callee(k[2]["fn"]).path == "svgdx::expression::eval_attr"
                 if not evaluated:
@@ -229,8 +234,8 @@ def _withdrawn_when_deferred(prog, body):
             continue
         for (bb, t, c) in b.call_sites(lambda c: "HashMap" in c.inst and c.path.split("::")[-1] in ("remove", "remove_entry")):
             o = R.origin(b, t["args"][0], carriers={}) if t["args"] else ("?",)
-            if o[0] == "field" and str(o[1][1][-1]) == ".elem_map":
-                withdrawers.add(b.path)
+            if (o[0] == "field" and str(o[1][1][-1]) == ".elem_map") or ("SvgElement" in c.inst and "String" in c.inst):
+                withdrawers.add(b.path)  # removes an entry of an id -> element map (by field name or by the map's type)
     if not withdrawers:
         return False
     ws = [bb for (bb, t, c) in body.call_sites(lambda c: c.path in withdrawers)]
